@@ -339,7 +339,8 @@ class SoulSeekClient:
             self.events,
             self.shares,
             self.transfers,
-            self.network
+            self.network,
+            tickets=self.ticket_generator
         )
 
     def create_server_manager(self) -> ServerManager:
